@@ -131,6 +131,72 @@ theorem restore_rel (r : Registry) (sp : Spec) (kgc start stop : Nat) (h : Rel r
     · rintro ⟨k, hk, hp⟩; exact ⟨k, (hkeys k).mpr hk, hp⟩
     · rintro ⟨k, hk, hp⟩; exact ⟨k, (hkeys k).mp hk, hp⟩
 
+theorem keyGroup_lt (kgc : Nat) (hk : 0 < kgc) (key : Bytes) : KeySpace.keyGroup kgc key < kgc := Nat.mod_lt _ hk
+
+/-- a well-formed key has the prefix of key group `g` exactly when `g` is its subject key's group -/
+theorem wf_prefix_iff {kgc : Nat} {k : Bytes} (hk : WF kgc k) (hk0 : 0 < kgc) (hk1 : kgc ≤ 65536) (g : Nat) (hg : g < 65536) :
+    Bytes.hasPrefix k (kgPrefix g) = true ↔ g = KeySpace.keyGroup kgc (timerOf k).1 := by
+  have hkg : KeySpace.keyGroup kgc (timerOf k).1 < 65536 := Nat.lt_of_lt_of_le (keyGroup_lt kgc hk0 _) hk1
+  have hp : Bytes.hasPrefix k (kgPrefix (KeySpace.keyGroup kgc (timerOf k).1)) = true := by
+    have := timerKey_prefix kgc (timerOf k).1 (encTs (timerOf k).2)
+    rw [← hk.1] at this; exact this
+  constructor
+  · intro h
+    obtain ⟨t1, e1⟩ := Bytes.hasPrefix_iff.mp h
+    obtain ⟨t2, e2⟩ := Bytes.hasPrefix_iff.mp hp
+    have a1 := take2_kgPrefix g hg t1
+    have a2 := take2_kgPrefix _ hkg t2
+    rw [← e1] at a1
+    rw [← e2] at a2
+    omega
+  · intro h; rw [h]; exact hp
+
+/-- restore into a different key-group range (rescale): a registry rebuilt with fresh caches over the same DB content for
+a sub-range `[start', stop')` of the old range stands for exactly the pending timers whose key group lies in the new range -/
+theorem restore_rel_subrange (r : Registry) (sp : Spec) (kgc start stop start' stop' : Nat) (h : Rel r sp)
+    (hsh : Shape r.store kgc start stop) (hk0 : 0 < kgc) (hk1 : kgc ≤ 65536) (hstop : stop ≤ 65536)
+    (hs1 : start ≤ start') (hs2 : start' ≤ stop') (hs3 : stop' ≤ stop) (maxCache : Nat) (ids : List String) :
+    Rel (Registry.new (Store.new r.store.db kgc start' stop' maxCache) ids)
+      ⟨sp.pending.filter (fun p => decide (start' ≤ KeySpace.keyGroup kgc p.1) && decide (KeySpace.keyGroup kgc p.1 < stop')),
+       Wm.Ups.init ids, Wm.zeroTime⟩ := by
+  have hinv := sinv_new r.store.db h.inv.db kgc start' stop' maxCache hs2 (by omega)
+  have hlen : (Store.new r.store.db kgc start' stop' maxCache).parts.length = stop' - start' := by simp [Store.new]
+  have hst : (Store.new r.store.db kgc start' stop' maxCache).start = start' := rfl
+  have hwfold : ∀ x ∈ r.store.timerKeys, WF kgc x := by
+    intro x hx; have := h.wf x hx; rw [hsh.hkgc] at this; exact this
+  have hkeys : ∀ x, x ∈ (Store.new r.store.db kgc start' stop' maxCache).timerKeys ↔
+      (x ∈ r.store.timerKeys ∧ start' ≤ KeySpace.keyGroup kgc (timerOf x).1 ∧ KeySpace.keyGroup kgc (timerOf x).1 < stop') := by
+    intro x
+    rw [mem_timerKeys, mem_timerKeys, ownsKey_iff _ hinv, ownsKey_iff _ h.inv, hsh.hstart, hsh.hlen, hlen, hst]
+    show (x ∈ r.store.db ∧ ∃ i, i < stop' - start' ∧ Bytes.hasPrefix x (kgPrefix (start' + i)) = true) ↔ _
+    constructor
+    · rintro ⟨hdb, i, hi, hp⟩
+      have hold : x ∈ r.store.db ∧ ∃ j, j < stop - start ∧ Bytes.hasPrefix x (kgPrefix (start + j)) = true :=
+        ⟨hdb, start' + i - start, by omega, by rw [show start + (start' + i - start) = start' + i by omega]; exact hp⟩
+      have hown : x ∈ r.store.timerKeys := by
+        rw [mem_timerKeys, ownsKey_iff _ h.inv, hsh.hstart, hsh.hlen]; exact hold
+      have hkg := (wf_prefix_iff (hwfold x hown) hk0 hk1 (start' + i) (by omega)).mp hp
+      exact ⟨hold, by omega, by omega⟩
+    · rintro ⟨⟨hdb, hown⟩, h1, h2⟩
+      have hmem : x ∈ r.store.timerKeys := by
+        rw [mem_timerKeys, ownsKey_iff _ h.inv, hsh.hstart, hsh.hlen]; exact ⟨hdb, hown⟩
+      refine ⟨hdb, KeySpace.keyGroup kgc (timerOf x).1 - start', by omega, ?_⟩
+      rw [show start' + (KeySpace.keyGroup kgc (timerOf x).1 - start') = KeySpace.keyGroup kgc (timerOf x).1 by omega]
+      exact (wf_prefix_iff (hwfold x hmem) hk0 hk1 _ (by omega)).mpr rfl
+  refine ⟨hinv, rfl, rfl, ?_, ?_, nodup_filter _ _ h.nodup⟩
+  · intro k hk
+    exact hwfold k ((hkeys k).mp hk).1
+  · intro p
+    show p ∈ sp.pending.filter _ ↔ _
+    simp only [List.mem_filter, Bool.and_eq_true, decide_eq_true_eq]
+    rw [h.pend p]
+    constructor
+    · rintro ⟨⟨k, hk, hp⟩, h1, h2⟩
+      exact ⟨k, (hkeys k).mpr ⟨hk, by rw [hp]; exact h1, by rw [hp]; exact h2⟩, hp⟩
+    · rintro ⟨k, hk, hp⟩
+      obtain ⟨a, b, c⟩ := (hkeys k).mp hk
+      exact ⟨⟨k, a, hp⟩, by rw [← hp]; exact b, by rw [← hp]; exact c⟩
+
 theorem rel_init (kgc start stop maxCache : Nat) (ids : List String) (hss : start ≤ stop) (hstop : stop ≤ 65536) :
     Rel (Registry.new (Store.new [] kgc start stop maxCache) ids) (Spec.new ids) := by
   have hinv := sinv_new [] Sorted.nil kgc start stop maxCache hss hstop
